@@ -342,7 +342,23 @@ pub fn eval_pair(p: &str, d: &str, with_k: bool, only_cfg: Option<usize>, fresh:
                 (if at { "c12-lex-at-lookahead".to_string() } else { "c12-tokens-differ".to_string() }, vec![])
             } else {
                 let rules = responsible_rules(p, d);
-                let class = if cfg == 2 && rules.is_empty() {
+                // D begins with k newlines: they merge with P's break into ONE token, so a lint of D
+                // alone that starts ON its leading newline (a sentence-wide span) starts k characters
+                // later in the whole. Exactly that and nothing else: same end, kind, message,
+                // suggestions, priority; parts-lint starts at |P|, whole-lint at |P| + k.
+                let k = d.chars().take_while(|c| *c == '\n').count();
+                let leading_newline_only = !boundary_ok && k > 0 && {
+                    let got: Vec<Key> = lw.iter().map(|l| key_of(l, 0)).collect();
+                    let want = expected(&lp, &ld, plen);
+                    let only_whole: Vec<&Key> = got.iter().filter(|x| !want.contains(x)).collect();
+                    let only_parts: Vec<&Key> = want.iter().filter(|x| !got.contains(x)).collect();
+                    !only_whole.is_empty()
+                        && only_whole.len() == only_parts.len()
+                        && only_parts.iter().all(|b| b.0 == plen && only_whole.iter().any(|a| a.0 == plen + k && (a.1, &a.2, &a.3, &a.4, a.5) == (b.1, &b.2, &b.3, &b.4, b.5)))
+                };
+                let class = if leading_newline_only {
+                    "c12-leading-newline-in-span".to_string()
+                } else if cfg == 2 && rules.is_empty() {
                     // reproduced only with a fresh group per lint: state carried inside a linter from
                     // the first paragraph to the second
                     "c12-linter-memo-across-paragraphs".to_string()
